@@ -256,6 +256,15 @@ class Check:
                     if not any(a.endswith(x) for x in allowed):
                         self.notes.append("theorem %s depends on %s" % (t, a))
         self.cov["trusted_base"] = sorted(set(self.cov["trusted_base"]) | {"Coq 8.16.1 kernel (coqc, vm_compute; no native_compute)"})
+        if self.tier == "thorough" and res["ok"]:
+            # independent re-check of the compiled property file and everything it depends on
+            mod = "OM." + prop_file[:-2].replace("/", ".")
+            with Lock("coq"):
+                rc, out = sh(["timeout", "2400", "coqchk", "-o", "-silent", "-Q", ".", "OM", mod], cwd=COQ)
+            axs = re.findall(r"^\s+([A-Za-z_][A-Za-z0-9_.']*)\s*$", out.split("* Axioms:")[-1].split("\n* ")[0], re.M) if "* Axioms:" in out else []
+            self.cov["coqchk"] = dict(module=mod, ok=(rc == 0), axioms=axs[:60], tail=out[-600:])
+            if rc != 0:
+                self.violation("coqchk", "coqchk rejects %s" % mod, dict(kind="coqchk", log=out[-3000:]), found_input=False)
         return res
 
     def prepare(self, prop_file, harness_src=None, extra_link=None, apps=True, opt="-O1"):
